@@ -597,6 +597,9 @@ func CanonicalIsomorphAllocated(n, m int, neighbours [][]int, op *CanonicalOrder
 
 	skipDeage := false
 
+	//The vertex classes may put singletons at the start of the partition and these are already part of the value.
+	op.expandValue(neighbours, currentBest, firstLeaf)
+
 	//Split the partition.
 	//We split here and at the end of the loop so we can easily handle the CheckViable option. It wouldn't be hard to check it the other way but might require a
 	worse := equitableRefinementProcedure(neighbours, op, dws, nbs, space, timesSeen, maxCell, numberOfMax, currentBest, firstLeaf, options)
